@@ -153,7 +153,7 @@ Print Assumptions C03_well_formed_filters_evaluate_without_error.
 Theorem C03_gen_limits_coherent :
   (0 < max_search_limit)%nat /\ (1 <= search_topk_factor)%nat /\
   (max_search_limit <= search_topk_cap)%nat /\ (max_filter_depth <= range_query_max_depth)%nat.
-Proof. vm_compute. repeat split; repeat constructor. Qed.
+Proof. repeat split; (apply Nat.ltb_lt || apply Nat.leb_le); vm_compute; reflexivity. Qed.
 Print Assumptions C03_gen_limits_coherent.
 
 Theorem C03_gen_operands_evaluated_unbounded :
@@ -186,7 +186,7 @@ Theorem C03_gen_validated_filters_pass_conversion_depth :
   forall q, In q (flt_ranges f) -> (rq_depth q <= range_query_max_depth)%nat.
 Proof.
   intros f H q Hq. pose proof (within_budget_bounds_range_depth _ _ _ _ f H q Hq) as Hd.
-  assert (max_filter_depth <= range_query_max_depth)%nat by (vm_compute; repeat constructor). lia.
+  assert (max_filter_depth <= range_query_max_depth)%nat by (apply Nat.leb_le; vm_compute; reflexivity). lia.
 Qed.
 Print Assumptions C03_gen_validated_filters_pass_conversion_depth.
 
